@@ -62,7 +62,12 @@ func main() {
 	case "configs":
 		sc := bufio.NewScanner(os.Stdin)
 		sc.Buffer(make([]byte, 1<<20), 1<<26)
-		w := bufio.NewWriter(os.Stdout)
+		// scripts may print (e.g. when getattr is overridden with print): keep the protocol stream clean
+		real := os.Stdout
+		if null, err := os.OpenFile(os.DevNull, os.O_WRONLY, 0); err == nil {
+			os.Stdout = null
+		}
+		w := bufio.NewWriter(real)
 		defer w.Flush()
 		for sc.Scan() {
 			var spec c11lib.ConfigSpec
